@@ -20,11 +20,11 @@ def build_at_released_address(target_id, cls, args, kwargs, cap=300000):
     Returns (object, landed: bool).  Never fails: if the block cannot be reached within `cap` fillers the
     object is simply built wherever the allocator puts it.
     """
-    obj = cls(*args, **kwargs)
-    if target_id is None or id(obj) == target_id:
-        return obj, target_id is not None
-    keep = [obj]
-    obj = None
+    if target_id is None:
+        return cls(*args, **kwargs), False
+    # The real constructor runs exactly ONCE (it may have side effects on its arguments if the library is broken):
+    # only throw-away fillers are used to walk the allocator to the released block.
+    keep = []
     for _ in range(cap):
         f = _Filler()
         if id(f) == target_id:
